@@ -4,6 +4,7 @@ engine.free_no_longer_needed_envs) to record the schedule, the stored environmen
 every environment that was read had been contracted from the current versions of the sites.  Infinite DMRG runs with
 'trace_inf' are instrumented the same way (InfEnvTracer) for the correspondence with Model/SweepInf.v."""
 import json
+import os
 import sys
 import traceback
 import warnings
@@ -403,7 +404,251 @@ class StopTracer:
         eng.is_converged, eng.sweep, eng.prepare_update_local = is_converged, sweep, prepare_update_local
 
 
+# ------------------------------------------------------------------------------ option-space strata ('ext' cases of harness/c13.py)
+class _LogRecorder:
+    """WARNING records of the tenpy loggers (the engines report some rarely taken branches only through logging)."""
+
+    def __init__(self):
+        import logging
+        self.msgs = []
+        rec = self
+
+        class H(logging.Handler):
+            def emit(self, record):
+                try:
+                    rec.msgs.append(record.getMessage()[:160])
+                except Exception:
+                    pass
+        self.h = H(level=logging.WARNING)
+        self.lg = logging.getLogger('tenpy')
+        self.lg.addHandler(self.h)
+
+    def close(self):
+        self.lg.removeHandler(self.h)
+
+
+def dense_state(case, psi):
+    """amplitudes of a finite MPS in the product basis ordered as the oracle orders it (first label of every site = 0)."""
+    L = psi.L
+    th = psi.get_theta(0, L).to_ndarray()
+    canon = {'tfi': ['up', 'down'], 'xxz': ['up', 'down'], 'longrange': ['up', 'down'], 'fermion': ['empty', 'full']}[case['model']['name']]
+    for k, site in enumerate(psi.sites):
+        th = np.take(th, [site.state_labels[nm] for nm in canon], axis=k + 1)
+    th = th.reshape(-1) * psi.norm
+    return [[float(x.real), float(x.imag)] for x in th]
+
+
+def init_state(case, M):
+    from tenpy.networks.mps import MPS
+    L = case['L']
+    sites = M.lat.mps_sites()
+    kw = {'unit_cell_width': L} if case['bc'] == 'infinite' else {}
+    if case.get('init_chi'):
+        np.random.seed(7)
+        psi = MPS.from_desired_bond_dimension(sites, case['init_chi'], bc=case['bc'], **kw)
+    else:
+        psi = MPS.from_product_state(sites, case['init'], bc=case['bc'], **kw)
+    if case.get('init_noncanonical'):
+        # an on-site operator that is not unitary, applied without restoring the canonical form: the tensors of psi are not canonical
+        # any more (MPOEnvironment.init_first_LP_last_RP has to call psi.canonical_form() before it can build the environments)
+        s = psi.sites[0]
+        op = s.get_op('Id') + float(case['init_noncanonical']) * s.get_op('Sigmaz' if 'Sigmaz' in s.opnames else 'Sz')
+        psi.apply_local_op(0, op, unitary=True)
+    return psi
+
+
+def engine_class(name):
+    from tenpy.algorithms import dmrg, vumps
+    if name == 'thread':
+        from tenpy.algorithms import dmrg_parallel
+        return dmrg_parallel.DMRGThreadPlusHC
+    return {'two': dmrg.TwoSiteDMRGEngine, 'single': dmrg.SingleSiteDMRGEngine,
+            'vumps1': vumps.SingleSiteVUMPSEngine, 'vumps2': vumps.TwoSiteVUMPSEngine}[name]
+
+
+def prepare_options(case):
+    from tenpy.algorithms import dmrg, mps_common
+    opts = json.loads(json.dumps(case['options']))
+    info = {}
+    if case.get('chi_list_fn'):
+        # dmrg.chi_list(chi_max, dchi, nsweeps): the documented helper that builds the option chi_list
+        cl = dmrg.chi_list(*case['chi_list_fn'])
+        info['chi_list_fn'] = {str(k): int(v) for k, v in cl.items()}
+        opts['chi_list'] = cl
+    elif opts.get('chi_list') is not None:
+        opts['chi_list'] = {int(k): v for k, v in opts['chi_list'].items()}
+    if case.get('mixer_as_class') and isinstance(opts.get('mixer'), str):
+        opts['mixer'] = getattr(mps_common, opts['mixer'])      # "A class is assumed to have the same interface as Mixer"
+    return opts, info
+
+
+def measure(case, M, psi, eng, E, out, tag=''):
+    """what the property observes at: E of run(), H_MPO.expectation_value(psi), psi.norm_test(), charges, the dense state."""
+    out[tag + 'E'] = float(np.real(E)) if E is not None else None
+    out[tag + 'norm'] = float(psi.norm)
+    out[tag + 'norm_test'] = float(np.max(psi.norm_test()))
+    out[tag + 'chi'] = [int(c) for c in psi.chi]
+    out[tag + 'E_mpo'] = float(np.real(M.H_MPO.expectation_value(psi)))
+    out[tag + 'S_ndim'] = int(max(np.ndim(s) if not hasattr(s, 'rank') else s.rank for s in psi._S))
+    if case['bc'] == 'finite':
+        out[tag + 'psi'] = dense_state(case, psi)
+        out[tag + 'q1'] = [int(x) for x in psi.get_total_charge(True)]
+    else:
+        out[tag + 'E_bond'] = float(np.mean(np.real(M.bond_energies(psi))))
+    if eng is not None:
+        out[tag + 'sweeps'] = int(eng.sweeps)
+        out[tag + 'shelve'] = bool(eng.shelve)
+        out[tag + 'mixer_end'] = eng.mixer is not None
+        st = eng.sweep_stats
+        out[tag + 'last_trunc_err'] = float(st['max_trunc_err'][-1]) if st.get('max_trunc_err') else 0.
+        out[tag + 'max_trunc_err'] = float(max(st['max_trunc_err'])) if st.get('max_trunc_err') else 0.
+        out[tag + 'E_stats_last'] = float(np.real(st['E'][-1])) if st.get('E') else None
+
+
+def run_ext(case):
+    """one case of the option-space strata.  Every documented way of starting / restarting an engine is reduced to a sequence of
+    `stages`; after the last stage the returned (E, psi) is measured exactly as for the plain runs."""
+    import tenpy.linalg.np_conserved as npc
+    from tenpy.algorithms import dmrg, vumps
+    from tenpy.networks.mps import MPS
+    out = {}
+    rec = _LogRecorder()
+    caught = []
+    try:
+        with warnings.catch_warnings(record=True) as wlist:
+            warnings.simplefilter('always')
+            try:
+                _run_ext(case, out)
+            except Exception as e:
+                out['error'] = type(e).__name__ + ': ' + str(e)[:300]
+                out['tb'] = traceback.format_exc()[-1500:]
+            caught = [(w.category.__name__, str(w.message)[:160]) for w in wlist]
+    finally:
+        rec.close()
+    skip = ('unit_cell_width is a new argument', 'unused option', 'has no effect')
+    out['warnings'] = sorted({c + ': ' + m for c, m in caught if not any(s in m for s in skip)})[:12]
+    out['log_warnings'] = sorted(set(rec.msgs))[:12]
+    return out
+
+
+def _run_ext(case, out):
+    import tenpy.linalg.np_conserved as npc
+    from tenpy.algorithms import dmrg, vumps
+    from tenpy.networks.mps import MPS
+    from tenpy.networks.uniform_mps import UniformMPS
+    M = make_model(case)
+    L = case['L']
+    psi = init_state(case, M)
+    out['q0'] = [int(x) for x in psi.get_total_charge(True)] if case['bc'] == 'finite' else None
+    opts, info = prepare_options(case)
+    out.update(info)
+    out['hc'] = bool(M.H_MPO.explicit_plus_hc)
+    kwargs = {}
+    # ---- states to orthogonalise against: the lowest states of the sector, found by the engine itself one after the other
+    ortho = case.get('orthogonal')
+    if ortho:
+        lower = []
+        for k in range(int(ortho['n'])):
+            p_k = init_state(case, M)
+            o_k = {'mixer': True, 'trunc_params': {'chi_max': 64, 'svd_min': 1e-13}, 'max_sweeps': 24, 'min_sweeps': 8, 'max_E_err': 1e-13,
+                   'mixer_params': {'amplitude': 1e-2, 'decay': 2.0, 'disable_after': 6}, 'max_trunc_err': 10.0, 'diag_method': 'lanczos',
+                   'lanczos_params': {'N_max': 60, 'P_tol': 1e-15, 'E_tol': 1e-15, 'reortho': True}}
+            e_k = dmrg.TwoSiteDMRGEngine(p_k, M, o_k, orthogonal_to=list(lower))
+            E_k, p_k = e_k.run()
+            lower.append(p_k)
+            out.setdefault('lower', []).append({'E': float(np.real(E_k)), 'psi': dense_state(case, p_k), 'norm_test': float(np.max(p_k.norm_test()))})
+        kwargs['orthogonal_to'] = [{'ket': p} for p in lower] if ortho.get('as_dict') else list(lower)
+    # ---- initialisation data of the environment (documented keyword arguments of MPOEnvironment.init_first_LP_last_RP)
+    if case.get('init_env_data') is not None:
+        kwargs['resume_data'] = {'init_env_data': dict(case['init_env_data'])}
+    if case.get('resume_from'):
+        # sequential simulations: a first run (possibly another model / bond dimension) and its get_resume_data(sequential_simulations=True)
+        c1 = case['resume_from']
+        M1 = make_model(dict(case, model=c1.get('model', case['model'])))
+        psi1 = init_state(dict(case, **{k: c1[k] for k in ('init_chi', 'init') if k in c1}), M1)
+        o1, _ = prepare_options({'options': c1['options']})
+        e1 = engine_class(c1.get('engine', case['engine']))(psi1, M1, o1)
+        E1, psi1 = e1.run()
+        rd = e1.get_resume_data(sequential_simulations=True)
+        out['first'] = {'E': float(np.real(E1)), 'chi': [int(c) for c in psi1.chi], 'keys': sorted(rd.keys()),
+                        'age': [int(rd['init_env_data'].get('age_LP', -1)), int(rd['init_env_data'].get('age_RP', -1))]}
+        rd = {'init_env_data': rd['init_env_data']}
+        kwargs['resume_data'] = rd
+        if c1.get('keep_psi', True):
+            psi = psi1                # "we assume that we still have the same psi"
+    if case.get('psi_uniform'):
+        psi = UniformMPS.from_MPS(psi)
+    if case.get('via_run'):
+        # the documented function interface dmrg.run(psi, model, options) with the option active_sites
+        info = dmrg.run(psi, M, opts, **kwargs)
+        out['info_keys'] = sorted(info.keys())
+        out['shelve_info'] = bool(info['shelve'])
+        out['n_bond_stats'] = int(len(info['bond_statistics']['i0']))
+        ss = info['sweep_statistics']
+        measure(case, M, psi, None, info['E'], out)
+        out['sweeps'] = int(ss['sweep'][-1]) if ss['sweep'] else 0
+        out['last_trunc_err'] = float(ss['max_trunc_err'][-1]) if ss['max_trunc_err'] else 0.
+        out['max_trunc_err'] = float(max(ss['max_trunc_err'])) if ss['max_trunc_err'] else 0.
+        out['mixer_end'] = None
+        return
+    cls = engine_class(case['engine'])
+    eng = cls(psi, M, opts, **kwargs)
+    out['n'] = int(eng.n_optimize)
+    out['env_age0'] = [eng.env.get_LP_age(0), eng.env.get_RP_age(L - 1)]
+    stp = None
+    if not case.get('no_stop_trace'):
+        stp = StopTracer(eng)
+    min_sweeps_derived = eng.options.silent_get('min_sweeps', None)
+    if case.get('shelve_after') is not None:
+        # "max_hours: if the DMRG took longer (measured in wall-clock time), 'shelve' the simulation": the wall clock is advanced by a
+        # year (time0 moved back) after the given number of iterations
+        k_sh = int(case['shelve_after'])
+        o_it = eng.run_iteration
+        n_it = [0]
+
+        def run_iteration():
+            r = o_it()
+            n_it[0] += 1
+            if n_it[0] == k_sh:
+                eng.time0 -= 3.2e7
+            return r
+        eng.run_iteration = run_iteration
+    n_runs = 1 + int(case.get('rerun', 0))
+    E = None
+    for k in range(n_runs):
+        if k > 0:
+            measure(case, M, eng.psi if not case['engine'].startswith('vumps') else psi_ret, eng, E, out, tag='run%d_' % (k - 1))
+            if case.get('reinit_env'):
+                # "useful to (re-)start a Sweep with a slightly different model or different (engine) parameters"
+                M2 = make_model(dict(case, model=case['reinit_env'])) if isinstance(case['reinit_env'], dict) else M
+                eng.init_env(M2)
+                M = M2
+        E, psi_ret = eng.run()
+    measure(case, M, psi_ret, eng, E, out)
+    if stp is not None:
+        out['stop'] = {'convs': stp.convs, 'sweeps': stp.sweeps, 'min_sweeps': None if min_sweeps_derived is None else int(min_sweeps_derived),
+                       'mixer_end': eng.mixer is not None}
+        chi_end = eng.trunc_params.silent_get('chi_max', None)
+        out['chi_max_end'] = None if chi_end is None else int(chi_end)
+    out['n_ortho'] = len(eng.ortho_to_envs)
+    if eng.ortho_to_envs:
+        # overlaps with the states that were to be projected out (MPS.overlap, independent of the environments of the engine)
+        out['ortho_overlaps'] = [float(abs(psi_ret.overlap(e.ket))) for e in eng.ortho_to_envs]
+    if case['engine'].startswith('vumps'):
+        out['returned_type'] = type(psi_ret).__name__
+        us = eng.update_stats
+        out['split_err_last'] = float(max(us['split_err_L'][-L:] + us['split_err_R'][-L:])) if us['split_err_L'] else None
+    else:
+        us = getattr(eng, 'update_stats', None) or {}
+        out['N_lanczos_last'] = [int(x) for x in (us.get('N_lanczos') or [])[-4:]]
+        lp = eng.lanczos_params
+        out['lanczos_tols_end'] = {k: (float(lp.silent_get(k, -1.0)) if lp.silent_get(k, None) is not None else None) for k in ('P_tol', 'E_tol')}
+
+
+
 def run_dmrg(case):
+    if case.get('ext'):
+        return run_ext(case)
     out = run_one(case)
     if case.get('compare_without_hc') and 'error' not in out:
         # the same run on the same Hamiltonian built without explicit_plus_hc
@@ -540,12 +785,22 @@ def run_one(case):
 
 def main():
     payload = json.load(open(sys.argv[1]))
+    cover = None
+    if payload.get('cover'):
+        # executed lines of the anchored tenpy files (coverage table of harness/c13_cover.py)
+        import c13_cover_impl as cover
+        if not cover.install(payload['cover']):
+            cover = None
     res = []
     for c in payload['cases']:
         try:
             res.append(run_dmrg(c))
         except Exception:
             res.append({'runner_error': traceback.format_exc()[-1500:]})
+    if payload.get('cover'):
+        import tenpy
+        root = os.path.dirname(os.path.dirname(os.path.abspath(tenpy.__file__)))
+        res = {'results': res, 'cover': cover.report(root) if cover is not None else None}
     json.dump(res, open(sys.argv[2], 'w'), default=lambda o: o.item() if hasattr(o, 'item') else str(o))
 
 
